@@ -309,13 +309,17 @@ class TrajectoryCalc:
         zero_finding_error = _cZeroFindingAccuracy * 2
         # x = horizontal distance down range, y = drop, z = windage
         while zero_finding_error > _cZeroFindingAccuracy and iterations_count < _cMaxIterations:
-            # Check height of trajectory at the zero distance (using current self.barrel_elevation)
-            t = self._integrate(shot_info, zero_distance, zero_distance, TrajFlag.NONE)[0]
+            # Check height of trajectory at the zero distance (using current self.barrel_elevation):
+            # the RANGE row is interpolated to exactly zero_distance (the last integration point lies up to two
+            # steps beyond it, which misses the point of aim when the sight line is inclined)
+            t = self._integrate(shot_info, zero_distance, zero_distance, TrajFlag.RANGE)[1]
             height = t.height >> Distance.Foot
             zero_finding_error = math.fabs(height - height_at_zero)
             if zero_finding_error > _cZeroFindingAccuracy:
-                # Adjust barrel elevation to close height at zero distance
-                self.barrel_elevation -= (height - height_at_zero) / zero_distance
+                # Adjust barrel elevation to close height at zero distance (Newton step:
+                # d(height)/d(elevation) = zero_distance / cos^2(elevation), which also converges for steep sight lines)
+                self.barrel_elevation -= ((height - height_at_zero) / zero_distance
+                                          * math.cos(self.barrel_elevation) ** 2)
             else:  # last barrel_elevation hit zero!
                 break
             iterations_count += 1
